@@ -167,7 +167,7 @@ def types_module(i, case, is_async):
     name = 'T%d' % i
     box_default = db.startswith('Box<dyn')
     L = ['#![allow(non_camel_case_types, non_snake_case, dead_code, unused_variables, unused_mut, unused_imports, private_interfaces)]',
-         'use state_machines::state_machine;']
+         'use state_machines::state_machine;', 'use state_machines::core;   // `core` is the facade\'s module here: generated paths must be absolute']
     dsl = 'name: %s, initial: A,%s%s dynamic: true, states: [A(%s), B%s, K], events { go { payload: %s, guards: [ok], transition: { from: A, to: B } } ' \
           'back { before: [note], transition: { from: [B, K], to: A } } }' % (
               name, (' context: %s,' % cty) if cty else '', ' async: true,' if is_async else '', da,
